@@ -190,6 +190,8 @@ namespace vh {
     }
 
     static bool g_reporting = false;
+    static void gdb_dump();
+    extern bool g_gdb_on_fail;
 
     [[noreturn]] void violation(char const* cls, char const* f, ...)
     {
@@ -200,6 +202,7 @@ namespace vh {
         va_end(ap);
         if (g_reporting) _exit(4);
         g_reporting = true;
+        if (g_gdb_on_fail) gdb_dump();
         emit_result("violation", cls, buf);
         _exit(3);
     }
